@@ -57,20 +57,6 @@ impl Cfg {
 			"finite": self.finite, "index": self.index, "cache": self.cache, "full_checksum": self.full_checksum,
 			"plan": self.plan, "block": self.block})
 	}
-	fn from_json(v: &Value) -> Cfg {
-		Cfg {
-			thr: v["thr"].as_u64().unwrap_or(64) as usize,
-			filecap: v["filecap"].as_u64().unwrap_or(1),
-			levels: v["levels"].as_u64().unwrap_or(2) as u8,
-			versioning: v["versioning"].as_bool().unwrap_or(false),
-			finite: v["finite"].as_bool().unwrap_or(false),
-			index: v["index"].as_bool().unwrap_or(false),
-			cache: v["cache"].as_u64().unwrap_or(1),
-			full_checksum: v["full_checksum"].as_bool().unwrap_or(false),
-			plan: v["plan"].as_u64().unwrap_or(0),
-			block: v["block"].as_u64().unwrap_or(128) as usize,
-		}
-	}
 }
 
 /// Deterministic value bytes: "<seq>:<len>|" (cut to len) followed by a pseudo-random body that contains
@@ -359,13 +345,12 @@ fn err_class(e: &str) -> &'static str {
 	}
 }
 
-struct Run<'a> {
-	cfg: &'a Cfg,
+struct Run {
 	commits: Vec<CommitRec>,
 	keymap: BTreeMap<Vec<u8>, String>,
 }
 
-impl Run<'_> {
+impl Run {
 	fn bytes_of(&self, seq: u64) -> Option<Vec<u8>> {
 		let c = self.commits.get(seq as usize - 1)?;
 		if c.kind == "Set" {
@@ -511,7 +496,7 @@ fn run_scenario(sc: &Value, idx: u64, cfg: &Cfg, sink: &Arc<GateSink>) -> Result
 		std::process::exit(2);
 	}
 	let mut tree: Tree = TreeBuilder::with_options(opts.clone()).build().map_err(|e| format!("open failed: {e}"))?;
-	let mut run = Run { cfg, commits: Vec::new(), keymap: BTreeMap::new() };
+	let mut run = Run { commits: Vec::new(), keymap: BTreeMap::new() };
 	for k in ["k1", "k2", "k3", "k4"] {
 		run.keymap.insert(key_bytes(k), k.to_string());
 	}
@@ -1187,7 +1172,8 @@ fn reopen_main(args: &[String]) {
 					t.set(b"key00", crash_value(999999, "key00", 300)).map_err(|e| e.to_string())?;
 					t.set(b"zz-probe", crash_value(999999, "zz-probe", 300)).map_err(|e| e.to_string())?;
 					rt.block_on(t.commit()).map_err(|e| format!("commit: {e}"))?;
-					tree.verif_flush().map_err(|e| format!("flush: {e}"))?;
+					// (no explicit flush here: the background tasks of the freshly opened store are running; the
+					// values are separated by the flush of close() and read back by the second open)
 					let r = tree.begin_with_mode(Mode::ReadOnly).map_err(|e| e.to_string())?;
 					for k in ["key00", "zz-probe"] {
 						match r.get(k.as_bytes()).map_err(|e| e.to_string())? {
